@@ -429,12 +429,18 @@ class Run:
                     return i
         return default
 
-    def mk(self, t: int, opts: dict | None = None) -> BaseEvent:
+    def mk(self, t: int, opts: dict | None = None, cur_event=None) -> BaseEvent:
         opts = opts or {}
         tag = len(self.events) + 1
         kw: dict[str, Any] = {'tag': tag, 'event_timeout': opts.get('timeout')}
-        if opts.get('parent'):
+        if opts.get('parent') == 'self':
+            if cur_event is not None:
+                kw['event_parent_id'] = cur_event.event_id  # explicit parent id that happens to be the event being handled
+        elif opts.get('parent'):
             kw['event_parent_id'] = opts['parent']
+        if opts.get('prepath') is not None:
+            # a caller-supplied event whose path already names buses (e.g. rebuilt from a WAL line and replayed)
+            kw['event_path'] = [self.sc['buses'][b]['name'] for b in opts['prepath']]
         if opts.get('payload'):
             kw.update(_payload(opts['payload']))
         if opts.get('age'):
@@ -444,7 +450,7 @@ class Run:
         e = TYPES[t](**kw)
         self.events[tag] = e
         self.tag_by_id[e.event_id] = tag
-        self.rec('mk', ev=tag, t=t, timeout=opts.get('timeout'), xparent=opts.get('parent'), payload=opts.get('payload'))
+        self.rec('mk', ev=tag, t=t, timeout=opts.get('timeout'), xparent=opts.get('parent'), payload=opts.get('payload'), prepath=opts.get('prepath'))
         return e
 
     # ---------------------------------------------------------------- shared op pieces
@@ -497,7 +503,7 @@ class Run:
             elif k == 'disp':
                 _, t, b, mode, pre = op[:5]
                 opts = op[5] if len(op) > 5 else None
-                c = self.mk(t, opts)
+                c = self.mk(t, opts, event)
                 if not self._dispatch(c, b, by, parent_tag):
                     continue
                 if opts and opts.get('share'):
@@ -514,6 +520,10 @@ class Run:
                 await self._await_event(c, by)
                 if mode == 'await2':
                     await self._await_event(c, by)  # awaiting an already complete event again
+            elif k == 'await_actor':
+                other = self.actor_events.get(op[1], [])
+                if op[2] < len(other) and other[op[2]].event_path:
+                    await self._await_event(other[op[2]], by)  # an event queued by top-level code, not part of this handler's tree
             elif k == 'await_shared':
                 c = self.shared.get(op[1])
                 if c is not None and c.event_path:
@@ -597,7 +607,7 @@ class Run:
             elif k == 'disp':
                 _, t, b = op[:3]
                 opts = op[5] if len(op) > 5 else None
-                c = self.mk(t, opts)
+                c = self.mk(t, opts, event)
                 if self._dispatch(c, b, by, parent_tag):
                     if opts and opts.get('share'):
                         self.shared[opts['share']] = c
@@ -629,7 +639,7 @@ class Run:
                 except BaseException as ex:
                     got = type(ex).__name__
                 self.rec('event_bus', by=by, got=got)
-            elif k in ('sleep', 'spawn', 'await_shared', 'stop_bus'):
+            elif k in ('sleep', 'spawn', 'await_shared', 'await_actor', 'stop_bus'):
                 continue  # not expressible in a sync handler
             else:
                 raise AssertionError(f'unknown op {op}')
